@@ -179,20 +179,25 @@ func (r *syncRunner) Exec(op string) (string, string) {
 		if d >= len(r.env.fc.best) {
 			return "bad-op", ""
 		}
+		// the backend switches to its new best chain first; the notifications describing the switch are processed by
+		// the wallet afterwards (a real node is always ahead of its notification queue)
+		var dropped []*fblock
 		for i := 0; i < d; i++ {
-			b := r.env.fc.pop()
-			if r.env.running {
-				if !r.env.fc.deliver(chain.BlockDisconnected(b.meta())) {
-					return "deliver-timeout", ""
-				}
-				r.noteZero()
-			}
+			dropped = append(dropped, r.env.fc.pop())
 		}
 		for _, b := range br {
 			if r.env.fc.push(b) != nil {
 				return "bad-op", ""
 			}
-			if r.env.running {
+		}
+		if r.env.running {
+			for _, b := range dropped {
+				if !r.env.fc.deliver(chain.BlockDisconnected(b.meta())) {
+					return "deliver-timeout", ""
+				}
+				r.noteZero()
+			}
+			for _, b := range br {
 				if !r.connect(b, kv["mode"]) {
 					return "deliver-timeout", ""
 				}
